@@ -77,6 +77,7 @@ type Case struct {
 	LRecs      []Region `json:",omitempty"`
 	Regions    []Region `json:",omitempty"` // leader region set in the order GetRegions() returned it
 	Pending    []Region `json:",omitempty"`
+	FStored    []Region `json:",omitempty"` // chain: metas in the follower's own region storage before it starts
 	Msgs       []Msg    `json:",omitempty"`
 	FCache     []Region `json:",omitempty"`
 	FNext      uint64   `json:",omitempty"`
@@ -238,6 +239,13 @@ func (c Case) coq() string {
 			optU(c.FP), coqMsgs(c.Msgs), coqRegions(c.FCache), coqfmt.ZU(c.FNext), coqU64s(c.FSaved))
 	case "bcast":
 		return fmt.Sprintf("CBcast %s\n  %s\n  %s\n  %s\n  %s", optU(c.LP), coqRegions(c.Pending), coqMsgs(c.Msgs), coqRegions(c.FCache), coqfmt.ZU(c.FNext))
+	case "chain":
+		st := make([]string, len(c.FStored))
+		for i, r := range c.FStored {
+			st[i] = r.coqMeta()
+		}
+		return fmt.Sprintf("CChain %s\n  %s\n  %s\n  %s\n  %s\n  %s\n  %s\n  %s\n  %s", optU(c.LP), coqRegions(c.LRecs), coqRegions(c.Regions),
+			optU(c.FP), coqfmt.List(st), coqRegions(c.Pending), coqMsgs(c.Msgs), coqRegions(c.FCache), coqfmt.ZU(c.FNext))
 	}
 	panic("bad case")
 }
@@ -559,6 +567,19 @@ func runSync(R *res.Result, c Case) Case {
 	for _, r := range c.LRecs {
 		leader.syncer.VerifHistory().Record(r.info())
 	}
+	if len(c.FStored) > 0 {
+		sorted := append([]Region(nil), c.FStored...)
+		sort.Slice(sorted, func(i, j int) bool { return sorted[i].ID < sorted[j].ID })
+		c.FStored = sorted // LoadRegionsOnce visits them in id order
+		for _, r := range sorted {
+			if err := follower.srv.storage.SaveRegion(r.metaPB()); err != nil {
+				panic(err)
+			}
+		}
+		if err := follower.srv.storage.Flush(); err != nil {
+			panic(err)
+		}
+	}
 	stub := &pdStub{leader: leader.syncer}
 	gs := grpc.NewServer()
 	pdpb.RegisterPDServer(gs, stub)
@@ -597,7 +618,13 @@ func runSync(R *res.Result, c Case) Case {
 	if okBound {
 		wait("the follower to apply the history messages", caughtUp)
 	}
-	if c.Kind == "bcast" && okBound {
+	histMsgs := 0
+	if (c.Kind == "bcast" || (c.Kind == "chain" && len(c.Pending) > 0)) && okBound {
+		stub.mu.Lock()
+		for _, m := range stub.msgs {
+			histMsgs += len(m.Regions)
+		}
+		stub.mu.Unlock()
 		ch := make(chan *core.RegionInfo, len(c.Pending)+1)
 		for _, r := range c.Pending {
 			ch <- r.info()
@@ -612,7 +639,7 @@ func runSync(R *res.Result, c Case) Case {
 				total += len(m.Regions)
 			}
 			stub.mu.Unlock()
-			return total == len(c.Pending)
+			return total == histMsgs+len(c.Pending)
 		})
 		wait("the follower to apply the broadcasts", caughtUp)
 		close(quit)
@@ -621,7 +648,7 @@ func runSync(R *res.Result, c Case) Case {
 	stub.mu.Lock()
 	c.Msgs = append([]Msg(nil), stub.msgs...)
 	stub.mu.Unlock()
-	if c.Kind == "sync" {
+	if c.Kind == "sync" || c.Kind == "chain" {
 		// the order GetRegions() handed to syncHistoryRegion (map order), if it was called
 		if leader.srv.lastGet != nil {
 			c.Regions = nil
@@ -697,6 +724,14 @@ func checkSent(R *res.Result, c *Case) {
 	switch {
 	case c.Kind == "bcast":
 		phase = "broadcast"
+		for _, r := range c.Pending {
+			held[r.ID] = r
+		}
+	case c.Kind == "chain":
+		phase = "sync+broadcast"
+		for _, r := range c.Regions {
+			held[r.ID] = r
+		}
 		for _, r := range c.Pending {
 			held[r.ID] = r
 		}
@@ -857,6 +892,45 @@ func genSync(r *rng.R, k int) Case {
 	return c
 }
 
+// a follower that already holds older versions of some of the leader's regions, a full synchronisation, then broadcasts
+func genChain(r *rng.R, k int) Case {
+	sizes := []int{1, 3, 60, 100, 101, 150, 230}
+	c := Case{Kind: "chain", UseRS: r.Pct(60)}
+	n := sizes[k%len(sizes)]
+	c.Regions = genRegions(r, n, []int{1, 1, 2}[r.Intn(3)], 0)
+	c.LP = u64p(uint64(1 + r.Intn(100000)))
+	if r.Pct(50) {
+		c.FP = u64p(0)
+	}
+	for _, reg := range c.Regions {
+		if r.Pct(40) { // an older version of the same region (same id and range, epochs not larger, other peers)
+			o := reg
+			o.Leader = nil
+			o.BW, o.BR, o.KW, o.KR = 0, 0, 0, 0
+			if o.ConfVer > 1 && r.Bool() {
+				o.ConfVer--
+			}
+			if o.Version > 1 && r.Bool() {
+				o.Version--
+			}
+			if len(o.Peers) > 1 && r.Bool() {
+				o.Peers = o.Peers[:len(o.Peers)-1]
+			}
+			c.FStored = append(c.FStored, o)
+		}
+	}
+	if r.Pct(80) {
+		c.Pending = genUpdates(r, c.Regions, []int{1, 5, 101, 130}[r.Intn(4)])
+		for i := range c.Pending {
+			if c.Pending[i].Leader == nil {
+				p := c.Pending[i].Peers[0]
+				c.Pending[i].Leader = &p
+			}
+		}
+	}
+	return c
+}
+
 func genBcast(r *rng.R, k int) Case {
 	sizes := []int{1, 2, 50, 100, 101, 102, 150, 203, 250}
 	c := Case{Kind: "bcast", UseRS: r.Pct(60)}
@@ -893,6 +967,7 @@ func main() {
 	n := flag.Int("n", 300, "number of generated buffer cases")
 	nsync := flag.Int("nsync", 48, "number of generated sync cases")
 	nbcast := flag.Int("nbcast", 9, "number of generated broadcast cases")
+	nchain := flag.Int("nchain", 14, "number of generated stale-follower / sync-then-broadcast cases")
 	out := flag.String("out", ".", "output directory")
 	tier := flag.String("tier", "quick", "")
 	corpus := flag.String("corpus", "", "json file of cases run first")
@@ -993,6 +1068,7 @@ func main() {
 		if *tier == "thorough" {
 			*nsync *= 4
 			*nbcast *= 3
+			*nchain *= 4
 		}
 		// S8 regression (fixed by db81664): a reset is persisted
 		emit(runBuf(R, 10, []BufOp{{K: "record", Arg: 1, OK: true}, {K: "reset", Arg: 1000000, OK: true}, {K: "record", Arg: 2, OK: true},
@@ -1002,6 +1078,9 @@ func main() {
 		}
 		for k := 0; k < *nbcast; k++ {
 			emit(runSync(R, genBcast(master.Fork(uint64(2000000+k)), k)))
+		}
+		for k := 0; k < *nchain; k++ {
+			emit(runSync(R, genChain(master.Fork(uint64(3000000+k)), k)))
 		}
 		for k := 0; k < *n; k++ {
 			capacity, ops := genBuf(master.Fork(uint64(k)))
